@@ -90,6 +90,14 @@ Definition cmd_pair (c1 : cfg) (o1 : obj) (c2 : cfg) (o2 : obj) : sexp :=
   | _, _ => SL [SI 5]     (* one of the trees does not flatten: not a case for this command *)
   end.
 
+(* cmd 30: transform(None, f_leaf) where the i-th call of f_leaf answers the treespec of the i-th tree
+   (TransformArr.arr_transform_gen, the array-level pass) *)
+Definition cmd_transform_gen (c0 : cfg) (o0 : obj) (inn : list (cfg * obj)) : sexp :=
+  match flatten c0 o0, mapM (fun p => flatten (fst p) (snd p)) inn with
+  | Ok (_, sp0), Ok rs => SL [SI 0; enc_res enc_spec (TransformArr.arr_transform_gen sp0 (map snd rs))]
+  | _, _ => SL [SI 5]
+  end.
+
 (* cmd 28: repr(treespec) as the token list of ToStringImpl (Repr.v) *)
 Definition lit_code (l : Repr.lit) : Z :=
   match l with
@@ -658,6 +666,18 @@ Definition run (s : sexp) : sexp :=
     match dec_cfg c, dec_obj o with
     | Some c', Some o' => cmd_repr c' o'
     | _, _ => bad
+    end
+  | SL [SI 30; c; o; SL inn] =>
+    match dec_cfg c, dec_obj o,
+          omapM (fun x => match x with
+                          | SL [ci; oi] => match dec_cfg ci, dec_obj oi with
+                                           | Some ci', Some oi' => Some (ci', oi')
+                                           | _, _ => None
+                                           end
+                          | _ => None
+                          end) inn with
+    | Some c', Some o', Some inn' => cmd_transform_gen c' o' inn'
+    | _, _, _ => bad
     end
   | SL [SI 25; c; p; f] =>
     match dec_cfg c, dec_obj p, dec_obj f with
